@@ -254,6 +254,70 @@ func genDeterminism(repo string) {
 				}
 				return true
 			})
+			// bytes handed out by a store (Get, an iterator's Key / Value) belong to the store: cachekv, gaskv and iavl return
+			// the slice their in-memory node holds, so writing into it changes the node's memory without a Set — a reverted
+			// transaction then leaves a trace that a node restarted from its database does not have
+			storeBytes := map[string]bool{}
+			ast.Inspect(fd.Body, func(n ast.Node) bool {
+				as, ok := n.(*ast.AssignStmt)
+				if !ok || len(as.Lhs) != 1 || len(as.Rhs) != 1 {
+					return true
+				}
+				id, ok := as.Lhs[0].(*ast.Ident)
+				call, ok2 := as.Rhs[0].(*ast.CallExpr)
+				if !ok || !ok2 {
+					return true
+				}
+				if se, ok := call.Fun.(*ast.SelectorExpr); ok {
+					rn := strings.ToLower(src(fset, se.X))
+					if (se.Sel.Name == "Get" && strings.Contains(rn, "store")) ||
+						((se.Sel.Name == "Value" || se.Sel.Name == "Key") && strings.Contains(rn, "iter")) {
+						storeBytes[id.Name] = true
+					}
+				}
+				return true
+			})
+			if len(storeBytes) > 0 {
+				isStoreBytes := func(e ast.Expr) bool {
+					for {
+						switch t := e.(type) {
+						case *ast.SliceExpr:
+							e = t.X
+						case *ast.IndexExpr:
+							e = t.X
+						case *ast.ParenExpr:
+							e = t.X
+						case *ast.Ident:
+							return storeBytes[t.Name]
+						default:
+							return false
+						}
+					}
+				}
+				ast.Inspect(fd.Body, func(n ast.Node) bool {
+					switch t := n.(type) {
+					case *ast.AssignStmt:
+						for _, l := range t.Lhs {
+							if ix, ok := l.(*ast.IndexExpr); ok && isStoreBytes(ix.X) {
+								add(t, "store-bytes-mutated", src(fset, l))
+							}
+						}
+					case *ast.IncDecStmt:
+						if ix, ok := t.X.(*ast.IndexExpr); ok && isStoreBytes(ix.X) {
+							add(t, "store-bytes-mutated", src(fset, t.X))
+						}
+					case *ast.CallExpr:
+						fn := src(fset, t.Fun)
+						writesFirst := fn == "copy" || strings.HasSuffix(fn, ".PutUint16") || strings.HasSuffix(fn, ".PutUint32") ||
+							strings.HasSuffix(fn, ".PutUint64") || strings.HasSuffix(fn, ".PutUvarint") || strings.HasSuffix(fn, ".PutVarint") ||
+							fn == "append" || fn == "sort.Slice" || fn == "rand.Read"
+						if writesFirst && len(t.Args) > 0 && isStoreBytes(t.Args[0]) {
+							add(t, "store-bytes-mutated", fn+"("+src(fset, t.Args[0])+", …)")
+						}
+					}
+					return true
+				})
+			}
 			ast.Inspect(fd.Body, func(n ast.Node) bool {
 				switch t := n.(type) {
 				case *ast.RangeStmt:
